@@ -1,6 +1,41 @@
 mod prng;
 mod sched;
 mod seams;
+mod workload;
+
+use workload::*;
+
+fn corpus_filter() {
+    install_panic_hook();
+    let dir = verif_dir().join("corpus");
+    let t = std::fs::read_to_string(dir.join("candidates.json")).expect("candidates.json");
+    let cands: Vec<CorpusEntry> = serde_json::from_str(&t).unwrap();
+    let mut keep: Vec<CorpusEntry> = vec![];
+    let mut rejected: Vec<CorpusEntry> = vec![];
+    let mut p = prng::Prng::new(1);
+    for c in cands {
+        let a = analyse(&c.src, &mut p);
+        if a.typechecks {
+            // drop programs that are too expensive for a per-change check
+            let specs = a.consts.clone();
+            let src = c.src.clone();
+            let t0 = std::time::Instant::now();
+            let r = guarded(|| compile_src(&src, &a.pub_fns.first().cloned().unwrap_or("main".into()), build_consts(&specs, &[], 0), Opts { register: false, dedup: true }, false));
+            let (o, _) = outcome_of(r);
+            let ms = t0.elapsed().as_millis();
+            eprintln!("{:40} {:?} {}ms", c.name, o.class(), ms);
+            let small = match &o { Outcome::Ok { size, .. } => *size <= 60_000, _ => true };
+            if small {
+                keep.push(c);
+            }
+        } else if rejected.len() < 60 && a.note == "rejected" && c.src.contains("fn main") {
+            rejected.push(c);
+        }
+    }
+    eprintln!("kept {} accepted, {} rejected", keep.len(), rejected.len());
+    std::fs::write(dir.join("extracted.json"), serde_json::to_string_pretty(&keep).unwrap()).unwrap();
+    std::fs::write(dir.join("rejected.json"), serde_json::to_string_pretty(&rejected).unwrap()).unwrap();
+}
 
 fn main() {
     let args: Vec<String> = std::env::args().collect();
@@ -12,6 +47,7 @@ fn main() {
                 std::process::exit(2);
             }
         },
+        Some("corpus-filter") => corpus_filter(),
         _ => {
             eprintln!("usage");
             std::process::exit(2);
